@@ -380,4 +380,102 @@ def resolve (explicit threadLocal runtime : Bool) : Source :=
   else if runtime then .runtime
   else .system
 
+/-! ## the time-source environment: overrides are installed and dropped over time
+
+`set_time_source(ts)` replaces the thread-local slot and returns a `ThreadLocalTimeSourceGuard`
+holding the `previous` content; the guard's `Drop` writes `previous` back (whatever the slot holds
+by then). `with_time_source(ts, f)` is `let _guard = set_time_source(ts); f()`.
+`set_time_source_for_current_runtime(ts)` inserts into a map keyed by the runtime id, panics (and
+inserts nothing) when an entry exists; its guard's `Drop` removes the entry. Time sources are named
+by numbers. -/
+
+/-- what a default constructor ends up bound to -/
+inductive Src where
+  | fake (id : Nat)
+  | system
+  deriving Repr, DecidableEq
+
+structure Env where
+  /-- `THREAD_LOCAL_TIME_SOURCE` -/
+  thread : Option Nat
+  /-- the entry of the current runtime in `runtime_time_sources()` -/
+  runtime : Option Nat
+  /-- live named `ThreadLocalTimeSourceGuard`s: their `previous` field -/
+  guards : Nat → Option (Option Nat)
+  /-- `with_time_source` scopes in progress, innermost first: the `previous` of their guards -/
+  scopes : List (Option Nat)
+  /-- a `RuntimeTimeSourceGuard` is live -/
+  rtGuard : Bool
+
+def Env.init : Env :=
+  { thread := none, runtime := none, guards := fun _ => none, scopes := [], rtGuard := false }
+
+inductive EOp where
+  /-- `let g = set_time_source(source s)` -/
+  | install (g s : Nat)
+  /-- `drop(g)` -/
+  | dropGuard (g : Nat)
+  /-- entering `with_time_source(source s, || …)` -/
+  | scopeBegin (s : Nat)
+  /-- the closure of the innermost `with_time_source` returns -/
+  | scopeEnd
+  /-- `set_time_source_for_current_runtime(source s)` -/
+  | installRt (s : Nat)
+  /-- dropping the `RuntimeTimeSourceGuard` -/
+  | dropRt
+  /-- building a `Stopwatch` / `Timer` / `Timestamp` / `TimestampOnClose`: with an explicit source
+  (`*_from_timesource`, `*_with_timesource`) or through a default constructor (`none`) -/
+  | construct (explicit : Option Nat)
+  deriving Repr, DecidableEq
+
+/-- `get_time_source(explicit)` in the current environment -/
+def Env.bind (e : Env) (explicit : Option Nat) : Src :=
+  match explicit with
+  | some s => .fake s
+  | none =>
+    match e.thread with
+    | some s => .fake s
+    | none =>
+      match e.runtime with
+      | some s => .fake s
+      | none => .system
+
+/-- `none` = not expressible (guard name in use / not live, no scope to end, no runtime guard) -/
+def Env.step (e : Env) : EOp → Option Env
+  | .install g s =>
+    match e.guards g with
+    | some _ => none
+    | none => some { e with thread := some s, guards := fun j => if j = g then some e.thread else e.guards j }
+  | .dropGuard g =>
+    match e.guards g with
+    | none => none
+    | some previous => some { e with thread := previous, guards := fun j => if j = g then none else e.guards j }
+  | .scopeBegin s => some { e with thread := some s, scopes := e.thread :: e.scopes }
+  | .scopeEnd =>
+    match e.scopes with
+    | [] => none
+    | previous :: rest => some { e with thread := previous, scopes := rest }
+  | .installRt s =>
+    match e.runtime with
+    | some _ => some e      -- `assert!(!already_installed)` panics, nothing was inserted, no guard
+    | none => if e.rtGuard then none else some { e with runtime := some s, rtGuard := true }
+  | .dropRt => if e.rtGuard then some { e with runtime := none, rtGuard := false } else none
+  | .construct _ => some e
+
+inductive EOut where
+  | nothing
+  | panic
+  | bound (s : Src)
+  deriving Repr, DecidableEq
+
+/-- the observable of an operation -/
+def Env.out (e : Env) : EOp → EOut
+  | .installRt _ => if e.runtime.isSome then .panic else .nothing
+  | .construct x => .bound (e.bind x)
+  | _ => .nothing
+
+def Env.run (e : Env) : List EOp → Option Env
+  | [] => some e
+  | op :: ops => (e.step op).bind fun e' => e'.run ops
+
 end Timers
